@@ -8,6 +8,8 @@ use vf_common::Ctx;
 
 fn main() {
     let ctx = Ctx::from_args(|p| if p == "C08" { "fault_enumeration" } else { "exploration" });
+    // a lock cycle inside a poll blocks the simulation thread itself: parking_lot's wait-for-graph detector makes that a verdict
+    ctx.enable_stuck_monitor(std::time::Duration::from_secs(8), "endpoint-wedged-deadlock", || !parking_lot::deadlock::check_deadlock().is_empty());
     let mut rep = ctx.report();
     if !props::dispatch(&ctx, &mut rep) {
         eprintln!("vf-sim does not serve property {}", ctx.property);
